@@ -576,6 +576,10 @@ def suite_C16():
                    ('100', Fraction(100)), ('1.50', Fraction(3, 2)), ('0.001e3', Fraction(1)), ('7/4', Fraction(7, 4))]:
         cases.append(('dq%d' % k, 'rational("%s")' % txt, show_frac(q), dict(text=txt, what='rational(s)')))
         k += 1
+    for txt, q in [('-0.5', Fraction(-1, 2)), ('-1.5', Fraction(-3, 2)), ('-2.5e1', Fraction(-25)), ('-0.075', Fraction(-3, 40)), ('-12.50e-1', Fraction(-5, 4)),
+                   ('-3/4', Fraction(-3, 4)), ('-1.5/-0.5', Fraction(3)), ('+1.5', Fraction(3, 2)), ('-0.0', Fraction(0)), ('-7', Fraction(-7)), ('-1e-2', Fraction(-1, 100))]:
+        cases.append(('dn%d' % k, 'rational("%s")' % txt, show_frac(q), dict(text=txt, what='rational(s) keeps the sign')))
+        k += 1
     for txt, q in [('1.5', Fraction(3, 2)), ('3/4', Fraction(3, 4)), ('2e3', Fraction(2000)), ('0.125', Fraction(1, 8)), ('10', Fraction(10)), ('1.5e-2', Fraction(3, 200))]:
         cases.append(('q%d' % k, 'rational("%s")' % txt, show_frac(q), dict(text=txt, what='rational(s)')))
         k += 1
@@ -785,6 +789,9 @@ def suite_C13():
     add('list(reverse(1 til 6))', '[5, 4, 3, 2, 1]', what='reverse of a stream')
     add('(1 til 6) take 2', '[1, 2]', what='take of a stream')
     add('list((1 til 6) drop 2)', '[3, 4, 5]', what='drop of a stream')
+    add('list((1 til 6) drop (<3))', '[3, 4, 5]', what='drop (predicate) of a stream')
+    add('list((1 til 6) drop (<9))', '[]', what='drop (predicate) of a stream')
+    add('(1 til 6) take (<3)', '[1, 2]', what='take (predicate) of a stream')
     add('(1 til 6) group 2', '[[1, 2], [3, 4], [5]]', what='group of a stream')
     add('(1 til 6) window 4', '[[1, 2, 3, 4], [2, 3, 4, 5]]', what='window of a stream')
     add('prefixes(1 til 3)', '[[], [1], [1, 2]]', what='prefixes of a stream')
